@@ -128,7 +128,8 @@ class EmitEngine(VectorEngine):
                 elif k == "atroot0":
                     prog.append({"k": "atroot", "s": []}); body("atroot0", 0, depth + 1)
                 elif k == "atroot":
-                    prog.append({"k": "atroot", "s": rng.choice((["c"], ["c", "sp", "&"], ["&", "-y"]))}); body("rule", 1, depth + 1)
+                    prog.append({"k": "atroot", "s": rng.choice((["c"], ["c", "sp", "&"], ["&", "-y"], ["c", ",", "d", "sp", "&"], ["d", ">", "&", ",", "c"],
+                                                                 ["c", ",", "d"], ["&", "-x", ",", "c", "+", "&"], ["c", ",", "d", ",", "&", ":hover"]))}); body("rule", 1, depth + 1)
                 elif k == "keyframes":
                     prog.append({"k": "keyframes", "s": ["k"]}); body("keyframes", 0, depth + 1)
                 elif k == "kf":
@@ -156,7 +157,8 @@ class EmitEngine(VectorEngine):
 class C20(EmitEngine):
     prop = "C20"
     rule = ("Rule trees generated as flat programs (open/close) by the builder actions of MC_Emit.tla: declarations, nested rules, "
-            "@media/@supports/unknown at-rules, @at-root with and without selector (with &), @keyframes, @font-face; bounded-exhaustive "
+            "@media/@supports/unknown at-rules, @at-root with and without selector (with &; selector lists of 2 members with/without & per "
+            "member under parent lists of 1-2 selectors, MC_Emit_C20_c.cfg), @keyframes, @font-face; bounded-exhaustive "
             "(<= MaxNodes statements, depth <= 3); TLC checks on every tree that the destination stack machine (mirror of cssdest.rs) "
             "yields the declarative tree; rsass's output, flattened to (path of blocks, declaration) in order, is compared with Emit!Expected. "
             "non-trivial = contains an at-rule/@at-root or two rules; distinct = distinct program. Flow B: seeded random trees of depth 4 / 12 nodes "
@@ -165,8 +167,10 @@ class C20(EmitEngine):
                    "`@media a and b` is read as `@media a { @media b {` (merged queries are not demanded and not rejected)",
                    "declarations directly inside a selector-less @at-root and `&` inside it are not generated (Sass rejects the former)"]
     mc_runs = {
-        "quick": [("MC_Emit", "MC_Emit_C20_a.cfg", {"workers": 4}), ("MC_Emit", "MC_Emit_C20_b.cfg", {"workers": 4})],
+        "quick": [("MC_Emit", "MC_Emit_C20_a.cfg", {"workers": 4}), ("MC_Emit", "MC_Emit_C20_b.cfg", {"workers": 4}),
+                  ("MC_Emit", "MC_Emit_C20_c.cfg", {"workers": 4})],
         "thorough": [("MC_Emit", "MC_Emit_C20_a.cfg", {"workers": 4}), ("MC_Emit", "MC_Emit_C20_b.cfg", {"workers": 4}),
+                     ("MC_Emit", "MC_Emit_C20_c.cfg", {"workers": 4}),
                      ("MC_Emit", "MC_Emit_C20_t.cfg", {"workers": 4, "timeout": 1500})],
     }
     random_n = {"quick": 1500, "thorough": 20000}
